@@ -243,3 +243,28 @@ Definition run_case (items : list (graph * list (N * Z) * list (N * Z))) (others
   let sers := flat_map (fun it => let '(g, wl, mg) := it in [ser_generic g; ser_rank wl g; ser_rank mg g; ser_nauty g]) items
               ++ flat_map (fun h => [ser_generic h; ser_nauty h]) others in
   L [L rows; tlist tnat (pattern [] sers)].
+
+(* ------------------------------------------------------------------ value objects (round 2; additions only) *)
+(* SynGraph.__eq__/__hash__: signature of the raw graph; CanonicalGraph: signature of the canonical graph;
+   SynRule.__eq__ (after repair 6662066): (left, right) signatures and the reaction-centre signature.
+   The digest is not modelled: equality of digests is equality of the serialisation strings under the monitored
+   premise that the digest does not collide on the strings compared. *)
+Definition syngraph_eqb (ser : graph -> str) (g h : graph) : bool := str_eqb (ser g) (ser h).
+Definition cangraph_eqb (canon : graph -> graph) (ser : graph -> str) (g h : graph) : bool :=
+  str_eqb (ser (canon g)) (ser (canon h)).
+Definition synrule_eqb (ser : graph -> str) (a b : graph * graph * graph) : bool :=      (* (rc, left, right) *)
+  str_eqb (ser (snd (fst a))) (ser (snd (fst b))) && str_eqb (ser (snd a)) (ser (snd b))
+  && str_eqb (ser (fst (fst a))) (ser (fst (fst b))).
+
+(* equality verdicts of the wrappers of the base presentation against every other presentation / mutant *)
+Definition run_vo (g : graph) (hs : list graph) : tok :=
+  tlist (fun h => L [tbool (syngraph_eqb ser_generic g h); tbool (cangraph_eqb canon_generic ser_generic g h);
+                     tbool (syngraph_eqb ser_nauty g h); tbool (cangraph_eqb canon_nauty ser_nauty g h)]) hs.
+Definition run_case2 (items : list (graph * list (N * Z) * list (N * Z))) (others : list graph) : tok :=
+  match items with
+  | [] => L [run_case items others; L []]
+  | (g, _, _) :: rest => L [run_case items others; run_vo g (map (fun it => fst (fst it)) rest ++ others)]
+  end.
+(* whole-family batches: equality pattern of the signatures, per back-end *)
+Definition run_batch (gs : list graph) : tok :=
+  L [tlist tnat (pattern [] (map ser_generic gs)); tlist tnat (pattern [] (map ser_nauty gs))].
